@@ -916,7 +916,9 @@ const TYS: [TI; 8] = [
     TI { name: "I20", bits: 20, signed: true, rep: 32, neg: false },
     TI { name: "I24", bits: 24, signed: true, rep: 32, neg: true },
     TI { name: "I48", bits: 48, signed: true, rep: 64, neg: true },
-    TI { name: "U11", bits: 11, signed: false, rep: 16, neg: false }, // U11 has a Neg impl, but the property speaks of signed types only
+    // U11 has a Neg impl; the property speaks of signed negation only, so the specification demands of it
+    // just the type's range invariant (SampleTypes.tla RangeOnlyOp)
+    TI { name: "U11", bits: 11, signed: false, rep: 16, neg: true },
     TI { name: "U20", bits: 20, signed: false, rep: 32, neg: false },
     TI { name: "U24", bits: 24, signed: false, rep: 32, neg: false },
     TI { name: "U48", bits: 48, signed: false, rep: 64, neg: false },
